@@ -3,6 +3,7 @@
   Part A: `Lifetime.abortFlow` does not read the queue / the outgoing events (`cs`-congruence through the recursion).
 -/
 import NemoVerif.Lemmas.LifetimeCoreVM2
+import NemoVerif.Lemmas.LifetimeLinked
 namespace NemoVerif.Lifetime.Refine
 open NemoVerif NemoVerif.CoreVM NemoVerif.CoreIndex NemoVerif.Lifetime
 
@@ -741,5 +742,42 @@ theorem corevm_abort_is_op (hν : Function.Injective ν) (hφ : Function.Injecti
         simp only
         exact body_refines ν φ hν hφ _ _ hrec hcs f sc d vm vm' hw h
     · rw [he] at h; cases h
+
+/-! ### transfer of the hierarchy part of the lifetime invariant to `CoreVM.abortFlow` -/
+
+theorem FlowInv.cs {s : State} (h : FlowInv s) : FlowInv (Refine.cs s) := h.of_flows_eq rfl rfl
+theorem LinkInv.cs {s : State} (h : LinkInv s) : LinkInv (Refine.cs s) := h.of_flows_eq rfl
+
+/-- **the hierarchy clauses of T2 hold along `CoreVM.abortFlow`**: if the abstraction of a well-formed VM state satisfies
+    `FlowInv` (children form, restarted instances under their reference instance, main flow a root, …) and `LinkInv`
+    (every listening instance is listed by its parent), so does the abstraction of the state after every normally
+    terminating `CoreVM.abortFlow` — hence the parent-pointer form of the lifetime clause (`parent_pointer_form`). -/
+theorem corevm_abort_hierarchy_inv (hν : Function.Injective ν) (hφ : Function.Injective φ) (n : Nat) (vm : VM) (f : FUid)
+    (sc : List Score) (d : Bool) (vm' : VM) (hw : WF vm) (hf : FlowInv (absVM ν φ vm)) (hl : LinkInv (absVM ν φ vm))
+    (h : CoreVM.abortFlow n f sc d vm = .ok () vm') :
+    FlowInv (absVM ν φ vm') ∧ LinkInv (absVM ν φ vm') ∧ WF vm' := by
+  obtain ⟨t, ht, ha, w'⟩ := corevm_abort_is_op ν φ hν hφ n vm f sc d vm' hw h
+  rw [ha]
+  exact ⟨FlowInv.cs (abort_flowInv hf n (ν f) d t ht), LinkInv.cs (abortFlow_linked n _ (ν f) d t hl ht), w'⟩
+
+/-! ### non-vacuity: a well-formed VM state on which `CoreVM.abortFlow` terminates normally -/
+
+/-- one instance `"a"` (WAITING, one head), built through the guarded index operation -/
+def vmEx : VM :=
+  { ixs := ({} : IxS).apply (.addInst "a" "h" none) (by rfl),
+    r := { prog := default, fx := [("a", { flowId := "a", loopId := none, hierPos := "0" })] } }
+
+example : WF vmEx := by
+  refine ⟨?_, ?_, ?_, ?_⟩
+  · intro k a h; simp [vmEx, OMap.lookup] at h
+  · exact ⟨by rfl, by decide⟩
+  · intro k a h; simp [vmEx, OMap.lookup] at h
+  · intro k x h
+    simp only [vmEx, OMap.lookup] at h
+    split at h
+    · cases h; decide
+    · cases h
+
+example : (match CoreVM.abortFlow 3 "a" [] false vmEx with | .ok _ _ => true | .error _ _ => false) = true := by rfl
 
 end NemoVerif.Lifetime.Refine
